@@ -481,6 +481,20 @@ def part_d(_item):
                                 if abs(R - exact) > tol:
                                     bad('absolute', str(float(exact)), str(float(R)))
                                     break
+                            # ... and sharper, relative to the start time as the library itself reports it: point i lies
+                            # (off + i*inc) expressed at the requested accuracy after it - truncated or rounded, so strictly less
+                            # than one unit away (a sum of separately truncated parts can be a whole unit off)
+                            sp = ch.properties['wf_start_time']
+                            sdt = sp.as_datetime64(acc) if raw else sp
+                            U = UNITS[acc]
+                            for i in range(n):
+                                td = ta[i] - sdt
+                                tu = UNITS[np.datetime_data(td.dtype)[0]]
+                                d = Fraction(int(td.astype('int64')), tu)
+                                e = Fraction(off + i * inc)
+                                if abs(d - e) > Fraction(1, U) * (1 + Fraction(1, 10 ** 6)) + abs(e) / 10 ** 12:
+                                    bad('absolute-offset', 'start + %s s at accuracy %s' % (float(e), acc), 'start + %s s (point %d)' % (float(d), i))
+                                    break
     return res
 
 
